@@ -70,6 +70,8 @@ func splitElem(v ssa.Value) (string, int64, bool) {
 }
 
 func checkC20(p *Prog, r *Report) {
+	r.rule("C20.inspectors-pure: BuildType, Wrap, Check, IDAndType and what they call in the package use no package-level variable that is modified at run time (no cache keyed by type or name): what they report for a struct depends on that struct alone")
+	checkInspectorsPure(p, r, "C20")
 	r.rule("C20.id-field: Wrapper.SetID stores through FieldByName(\"ID\") of the wrapped value (the field Check validates by its Go name) and GetID reads the ID from the wrapped value on every call; the Wrapper keeps no ID of its own")
 	checkWrapperID(p, r, "C20")
 	r.rule("C20.get-api-only: where Wrapper.getField (or its search helper) matches the key against a json tag it also tests the field's api tag, so Get only reads fields that belong to the resource")
@@ -1654,5 +1656,90 @@ func checkFirstMatch(p *Prog, r *Report, prefix string) {
 			}
 		}
 		_ = n
+	}
+}
+
+// globalMutatedAtRuntime: some function other than the package initialiser
+// stores to the package-level variable, updates the map it holds, or hands
+// its address to a call (sync.Map methods, for instance).
+func globalMutatedAtRuntime(p *Prog, gl *ssa.Global) bool {
+	mut := false
+	for _, f := range p.Funcs {
+		if f.Name() == "init" && f.Signature.Recv() == nil && f.Parent() == nil {
+			continue
+		}
+		eachInstr(f, func(ins ssa.Instruction) {
+			switch x := ins.(type) {
+			case *ssa.Store:
+				if x.Addr == ssa.Value(gl) {
+					mut = true
+				}
+			case *ssa.MapUpdate:
+				if ld, ok := x.Map.(*ssa.UnOp); ok && ld.X == ssa.Value(gl) {
+					mut = true
+				}
+			case ssa.CallInstruction:
+				for _, a := range x.Common().Args {
+					if a == ssa.Value(gl) {
+						mut = true
+					}
+				}
+				if x.Common().IsInvoke() && x.Common().Value == ssa.Value(gl) {
+					mut = true
+				}
+			case *ssa.FieldAddr:
+				if x.X == ssa.Value(gl) {
+					for _, ref := range referrers(x) {
+						if st, ok := ref.(*ssa.Store); ok && st.Addr == ssa.Value(x) {
+							mut = true
+						}
+						if _, ok := ref.(ssa.CallInstruction); ok {
+							mut = true
+						}
+					}
+				}
+			}
+		})
+	}
+	return mut
+}
+
+// checkInspectorsPure: what BuildType, Wrap, Check and IDAndType report about
+// a struct depends on that struct alone: neither they nor what they call in
+// the package touch a package-level variable that is modified at run time (a
+// cache keyed by type or by name, say).
+func checkInspectorsPure(p *Prog, r *Report, prefix string) {
+	var roots []*ssa.Function
+	for _, n := range []string{"BuildType", "Wrap", "Check", "IDAndType"} {
+		if f := p.Fn(n); f != nil {
+			roots = append(roots, f)
+		}
+	}
+	if len(roots) == 0 {
+		r.fail("anchors BuildType / Wrap / Check / IDAndType not found")
+		return
+	}
+	nBad, nFn := 0, 0
+	for _, g := range p.cg.Reachable(roots...) {
+		if g.Pkg != roots[0].Pkg {
+			continue
+		}
+		nFn++
+		eachInstr(g, func(ins ssa.Instruction) {
+			for _, op := range ins.Operands(nil) {
+				if *op == nil {
+					continue
+				}
+				gl, ok := (*op).(*ssa.Global)
+				if !ok || gl.Pkg == nil || gl.Pkg.Pkg.Path() != targetPkgPath || !globalMutatedAtRuntime(p, gl) {
+					continue
+				}
+				nBad++
+				r.bad(prefix+".inspectors-pure", funcName(g)+":global:"+gl.Name(), p.pos(ins.Pos()), funcName(g)+" (reached from BuildType / Wrap / Check) uses the package-level variable "+gl.Name()+", which is modified at run time: what is reported for a struct can depend on which other structs were seen before (two structs sharing a type name, say)")
+			}
+		})
+	}
+	if nBad == 0 {
+		r.ok(prefix+".inspectors-pure", "BuildType/Wrap/Check:no-mutable-package-state", p.pos(roots[0].Pos()), fmt.Sprintf("%d functions reached use no package-level variable that is modified at run time", nFn))
 	}
 }
